@@ -373,9 +373,31 @@ func reportUnbalanced(c *core.Ctx, drv string, ub []unbalancedState, leafH int) 
 		if len(u.Path) != minLen {
 			break
 		}
-		parts := make([]string, len(u.Path)) // keys only: values do not influence the shape
+		// keys only (values do not influence the shape), reduced to their order pattern:
+		// set-8-set-1-set-5 is the same history as insert-3-1-2 up to order isomorphism
+		keys := make([]int, len(u.Path))
 		for i, o := range u.Path {
-			parts[i] = strings.ToLower(o.Op) + "-" + strconv.Itoa(o.A[0])
+			keys[i] = o.A[0]
+		}
+		parts := make([]string, len(u.Path))
+		for i, o := range u.Path {
+			rank := 1
+			seenK := map[int]bool{}
+			for _, k := range keys {
+				if k < o.A[0] && !seenK[k] {
+					rank++
+					seenK[k] = true
+				}
+			}
+			name := strings.ToLower(o.Op)
+			if o.Op == "Set" {
+				name = "insert"
+			}
+			if i > 0 && u.Path[i-1].Op == o.Op {
+				parts[i] = strconv.Itoa(rank)
+			} else {
+				parts[i] = name + "-" + strconv.Itoa(rank)
+			}
 		}
 		key := "treemap-true-balance/" + strings.Join(parts, "-")
 		if seen[key] {
@@ -422,7 +444,7 @@ func replaySlice(c *core.Ctx, drv string, maxCap int, reserve []int, valMod int,
 	want := make([]map[string]any, len(g.Labels))
 	wantP := make([]proj, len(g.Labels))
 	for i, l := range g.Labels {
-		js, ok := core.VarString(l, "js")
+		js, ok := core.VarString(cleanLabel(l), "js")
 		if !ok {
 			return fmt.Errorf("node label without js: %q", l)
 		}
@@ -430,6 +452,17 @@ func replaySlice(c *core.Ctx, drv string, maxCap int, reserve []int, valMod int,
 			return fmt.Errorf("js of node %d: %v", i, err)
 		}
 		_ = json.Unmarshal([]byte(js), &wantP[i])
+	}
+	lastOf := func(node, i int) int { // last element of slice i's contents in the model state
+		ws, _ := want[node]["s"].([]any)
+		w, _ := ws[i].(map[string]any)
+		s1, _ := w["s1"].([]any)
+		s2, _ := w["s2"].([]any)
+		all := append(append([]any{}, s1...), s2...)
+		if len(all) == 0 {
+			return 0
+		}
+		return num(all[len(all)-1])
 	}
 	c.Add("states", res.Distinct)
 	c.Add("transitions", len(g.Edges))
@@ -466,6 +499,12 @@ func replaySlice(c *core.Ctx, drv string, maxCap int, reserve []int, valMod int,
 			return map[string]any{"obj": "slice", "path": path, "edges": edges}
 		},
 		checkInit: checkNode,
+		fixOp: func(e int, o op) op { // Push(i): the pushed value is the last element of the target queue
+			if o.Op == "Push" && len(o.A) == 1 {
+				o.A = append(o.A, lastOf(g.Edges[e].To, o.A[0]-1))
+			}
+			return o
+		},
 	}
 	r.check = func(e int, got map[string]any) string { return checkNode(g.Edges[e].To, got) }
 	t0 := time.Now()
